@@ -63,7 +63,8 @@ register('C15', [
     'rayon implements its documented fold/reduce contract (result = reducer applied along some binary tree with identity leaves)',
     'Arc::drop_slow stubbed to a no-op (payload leaked) - drop glue is not the subject',
 ], [
-    'the per-leaf fold step eval_job_insertion_in_route (needs InsertionContext); noise/blink/farthest selectors (randomised by design)',
+    'the per-leaf fold step eval_job_insertion_in_route and the work partitioning inside PositionInsertionEvaluator::evaluate_all / fold_reduce (need InsertionContext and rayon): a change that drops items before they reach the reducer is NOT visible to this check',
+    'noise/blink/farthest selectors (randomised by design)',
     'validity of full solver runs under Parallelism::new(p,t)',
 ])
 
@@ -72,6 +73,7 @@ register('C08', [
     'Elitism pre-state: any sorted vector of K individuals (K case-split); induction over the sorted invariant gives arbitrary histories',
 ], [
     'Rosomaxa (self-organising) population: needs Environment with thread pools and the GSOM network',
+    'Elitism::drain / set_max_population_size / maybe_change',
     'a seeded full solve never returns a worse solution (whole solver run)',
 ])
 
